@@ -1144,6 +1144,13 @@ def named_cases():
         [{"find": ["ext:pre_shared_key", "binders", "binder"], "op": "empty"}])
     add("tls13-resume", "client", "client_hello", "empty-psk-identity",
         [{"find": ["ext:pre_shared_key", "identities", "id"], "op": "empty"}])
+    # fewer binders than identities, the identity the server knows behind the last binder
+    add("tls13-psk", "client", "client_hello", "psk-fewer-binders-than-identities",
+        [{"find": ["ext:pre_shared_key", "identities"], "op": "insert_raw_item", "i": 0,
+          "data": "0005" + "6465636f79" + "00000000"}])
+    add("tls13-resume", "client", "client_hello", "psk-fewer-binders-than-identities",
+        [{"find": ["ext:pre_shared_key", "identities"], "op": "insert_raw_item", "i": 0,
+          "data": "0005" + "6465636f79" + "00000000"}])
     for scn in ("tls12-ecdhe-rsa", "tls13-x25519"):
         add(scn, "client", "client_hello", "sni-no-hostname",
             [{"find": ["ext:server_name", "name_type"], "op": "set_uint", "value": 1}])
@@ -1164,6 +1171,10 @@ def named_cases():
              {"find": ["uncompressed_length"], "op": "set_uint", "value": 0xffffff}])
         add(scn, side, "compressed_certificate", "compressed-certificate-bomb-declared-original",
             [{"find": ["compressed"], "op": "set_bytes", "data": bomb}])
+        for n in (0, 1):
+            add(scn, side, "compressed_certificate", "compressed-certificate-bomb-declared-%d" % n,
+                [{"find": ["compressed"], "op": "set_bytes", "data": bomb},
+                 {"find": ["uncompressed_length"], "op": "set_uint", "value": n}])
         add(scn, side, "compressed_certificate", "compressed-certificate-wrong-length-plus1",
             [{"find": ["uncompressed_length"], "op": "set_uint_delta", "delta": 1}])
         add(scn, side, "compressed_certificate", "compressed-certificate-wrong-length-minus1",
@@ -1461,7 +1472,8 @@ def gen_ch_features(rng, directed=None):
         "pha": ["-", P(False), P(True)],
         "pm": ["-", P(None), P([]), P([1]), P([0]), P([0, 1]), P([7])],
         "psk": ["-", P((None, None, True)), P(([], [], True)), P(([4], [32], True)), P(([4], [32], False)), P(([0], [32], True)),
-                P(([4], [0], True)), P(([4, 5], [32], True)), P(([4], [32, 32], True)), P(([4, 0], [32, 32], True)),
+                P(([4], [0], True)), P(([4, 5], [32], True)), P(([5, 4], [32], True)), P(([5, 6, 4], [32, 32], True)),
+                P(([4], [32, 32], True)), P(([4, 0], [32, 32], True)),
                 P(([], [32], True)), P(([4], [], True))],
         "sg": ["-", P(None), P([]), P([29, 23]), P([23]), P([24, 29]), P([1, 29]), P([19, 29, 23]), P([256, 29]), P([0xff01, 29])],
         "ks": ["-", P(None), P([]), P([29]), P([23]), P([29, 23]), P([23, 29]), P([29, 29]), P([24]), P([30]), P([256])],
@@ -1539,7 +1551,11 @@ def ch_correspondence(ctx, J, n):
     # messages of the modelled chain (the certificate-type test is modelled on its own, outside the chain;
     # the ServerHello messages cannot come from a server)
     msgs = set(norm_msg(m) for m in model_strings()) - {norm_msg("the client doesn't support my certificate type")}
+    T13 = {"sv": ("P", [0x0304, 0x0303]), "pm": ("P", [1]), "ks": ("P", [29]), "cv": 0x0303, "sg": ("P", [29, 23]), "sa": ("P", 4)}
     directed = [{"psk": ("P", ([0], [32], True)), "sv": ("P", [0x0304, 0x0303]), "pm": ("P", [1]), "ks": ("P", [29])},
+                # fewer binders than identities, the identity the server knows ("iiii") behind the last binder
+                dict(T13, psk=("P", ([5, 4], [32], True))), dict(T13, psk=("P", ([5, 6, 4], [32, 32], True))),
+                dict(T13, psk=("P", ([4, 5], [32], True))), dict(T13, psk=("P", ([4], [32, 32], True))),
                 {"sni": ("P", [(1, "o")])}, {"sni": ("P", [(7, "e"), (1, "o")])}, {"sv": ("P", None)},
                 {"sv": ("P", None), "cv": 0x0301}, {"ct": ("P", None)}, {"sa": "D", "_dupval": {"sa": 4}},
                 {"sni": "D", "_dupval": {"sni": [(0, "o")]}}]
@@ -1569,13 +1585,14 @@ def ch_correspondence(ctx, J, n):
         ok = True
         if parts[0] == "alert":
             d, m = int(parts[1]), norm_msg(parts[2])
-            if m == "parse":
-                ok = impl[0] == "alert" and impl[1] == 50 and not any(impl[2].startswith(x) for x in msgs)
+            if m.startswith("parse"):
+                # answered by `_getMsg` from a parser's exception: the description only, no modelled message
+                ok = impl[0] == "alert" and impl[1] == d and not any(impl[2].startswith(x) for x in msgs)
             else:
                 ok = impl[0] == "alert" and impl[1] == d and impl[2].startswith(m)
         elif parts[0] == "pass":
             # past the modelled checks: whatever happens is not one of the modelled answers
-            ok = not (impl[0] == "alert" and any(impl[2].startswith(x) for x in msgs if x != "parse") and impl[2] != "")
+            ok = not (impl[0] == "alert" and any(impl[2].startswith(x) for x in msgs if not x.startswith("parse")) and impl[2] != "")
             if impl[0] == "tlserror" and impl[1] == "TLSInternalError" and "Multiple extensions" in impl[2]:
                 ok = False
         elif parts[0] == "escape":
@@ -1598,14 +1615,19 @@ def ch_correspondence(ctx, J, n):
                                       "ks": ("P", [29]) if tls13 else "-", "ed": "-", "hb": "-", "rsl": "-", "ct": ct,
                                       "pe": 0, "se": 0, "ce": 0, "nc": 1, "_min": 0x0301, "_dupval": {"ct": [0]}})
             f["_vers"] = server_versions(f["_min"])
-            mo = lc.ask(ch_feature_line(f).replace("ch ", "ctchk ", 1))
+            # the chain first; the certificate-type test only for hellos the chain lets pass
+            mo = lc.ask(ch_feature_line(f))
+            if mo == "pass":
+                mo = lc.ask(ch_feature_line(f).replace("ch ", "ctchk ", 1))
             impl, L = run_ch_features(f)
             ctx.compared()
             ctx.case(key=("ctchk", tls13, repr(ct)), sample=None)
             judge(J, L, "server", "client_hello cert_type", {"stage": "ch-features", "features": f, "msg": "client_hello",
                                                             "cls": "cert-type", "scn": "features"})
             parts = mo.split(":", 2)
-            if parts[0] == "alert":
+            if parts[0] == "alert" and parts[2].startswith("parse"):
+                ok = impl[0] == "alert" and impl[1] == int(parts[1])
+            elif parts[0] == "alert":
                 ok = impl[0] == "alert" and impl[1] == int(parts[1]) and impl[2].startswith(norm_msg(parts[2]))
             elif parts[0] == "pass":
                 ok = impl == ("other", "stall", "")
@@ -2002,7 +2024,7 @@ def error_table_correspondence(ctx, J):
         L, applied, peak = run_handshake_case(scn, side, idx[0], d, base.ctxm)
         victim = "server" if side == "client" else "client"
         obs = observe_effects(L, victim, 0, peer_reads=False)
-        if kind in ("msgIllegalParameter", "msgBadCertificate"):
+        if kind in ("msgIllegalParameter", "msgBadCertificate") and sname.startswith("tls13"):
             # encrypted flight: the alert is read by the peer
             pe = L.end(side).exc
             obs["wire"] = [(pe.level, pe.description)] if getattr(pe, "description", None) is not None else obs["wire"]
@@ -2026,9 +2048,9 @@ def error_table_correspondence(ctx, J):
     during("tls12-ecdhe-rsa", "server", "handshake:certificate", {"op": "byte_set", "pos": 0, "value": 12}, "unexpectedHandshakeType")
     during("tls13-x25519", "server", "change_cipher_spec", {"op": "raw_replace", "data": "02"}, "invalidCcs13")
     during("tls12-ecdhe-rsa", "client", "handshake:client_hello", [{"find": ["extensions"], "op": "dup_item", "i": 0}],
-           "internalNoAlert")
+           "msgIllegalParameter")
     during("tls13-x25519", "client", "handshake:client_hello", [{"find": ["ext:supported_versions", "ext_data"], "op": "empty"}],
-           "escaped", py="TypeError")
+           "semantic", 50)
     for (kind, a, b, handler, closed0, sess0, obs, where, py) in rows:
         q = "err kind=%s a=%d b=%d closed=%d session=%s handler=%s%s" % (
             kind, a, b, 1 if closed0 else 0, "-" if sess0 is None else ("1" if sess0 else "0"), handler,
@@ -2144,7 +2166,8 @@ def sh_correspondence(ctx, J, bases):
     if lc is None:
         return
     msgs = set(norm_msg(m) for m in model_strings())
-    B13 = dict(pe=0, v=771, sv="772", al=1, hrr=0, sid=1, co=1, cto=1, cn=1, tack=0, npn=0, ems="-", alpn="-", afo=1, hb="-", rsl="-",
+    B13 = dict(pe=0, v=771, sv="772", al=1, hrr=0, sid=1, co=1, cto=1, cn=1, tack=0, npn=0, ems="-", alpn="-", afo=1, hb="-",
+               ecpf="-", rsl="-",
                ks="29", psk="-", cmin=772, cmax=772, cvers="772,771,770,769", rems=0, stack=0, snpn=0, salpn=1, uhb=1, hbcb=0,
                shares="L23,29", pskn="N")
     BPSK = dict(B13, psk="0", pskn="1", salpn=0)
@@ -2187,15 +2210,30 @@ def sh_correspondence(ctx, J, bases):
         E("psk-dup", [{"find": ["extensions"], "op": "dup_named", "name": "ext:pre_shared_key"}], psk="D"),
         E("no-key-share-psk-only", [{"find": ["extensions"], "op": "del_named", "name": "ext:key_share"}], ks="-"),
     ]
-    plan = [("tls13-x25519", B13, cases13), ("tls13-psk", BPSK, casespsk)]
+    # TLS 1.2: the extensions of the real ServerHello of the scenario give the base features
+    B12 = dict(B13, sv="-", ks="-", cmin=771, cmax=771, cvers="771,770,769", ems="1", alpn="L8", hb="1", ecpf="L0", rsl="16384")
+    cases12 = [
+        E("plain", []),
+        E("ecpf-no-payload", [{"find": ["ext:ec_point_formats", "ext_data"], "op": "empty"}], ecpf="N"),
+        E("ecpf-empty-list", [{"find": ["ext:ec_point_formats", "ext_data"], "op": "set_bytes", "data": "00"}], ecpf="L"),
+        E("ecpf-dup", [{"find": ["extensions"], "op": "dup_named", "name": "ext:ec_point_formats"}], ecpf="D"),
+        E("alpn-dup", [{"find": ["extensions"], "op": "dup_named", "name": "ext:alpn"}], alpn="D"),
+        E("rsl-empty", [{"find": ["ext:record_size_limit", "ext_data"], "op": "empty"}], rsl="N"),
+        E("rsl-63", [{"find": ["ext:record_size_limit", "limit"], "op": "set_uint", "value": 63}], rsl="63"),
+        E("heartbeat-3", [{"find": ["ext:heartbeat", "mode"], "op": "set_uint", "value": 3}], hb="3"),
+        E("compression", [{"find": ["compression_method"], "op": "set_uint", "value": 1}], cn=0),
+        E("version-1.1", [{"find": ["server_version"], "op": "set_uint", "value": 0x0302}], v=770),
+    ]
+    plan = [("tls13-x25519", B13, cases13), ("tls13-psk", BPSK, casespsk), ("tls12-ecdhe-rsa", B12, cases12)]
     for sname, basef, cases in plan:
         base = bases.get(sname)
         if base is None or not base.ok:
             continue
         idx = [i for i, (n, ct, data, _) in enumerate(base.msgs["server"]) if n == "handshake:server_hello"][0]
         for name, steps, over in cases:
-            d = {"op": "multi", "steps": steps, "label": "server_hello", "cls": "sh-feature-" + name, "pver": [3, 4]} \
-                if isinstance(steps, list) else dict(steps, label="server_hello", cls="sh-feature-" + name, pver=[3, 4])
+            pv = list(base.ctxm["version"])
+            d = {"op": "multi", "steps": steps, "label": "server_hello", "cls": "sh-feature-" + name, "pver": pv} \
+                if isinstance(steps, list) else dict(steps, label="server_hello", cls="sh-feature-" + name, pver=pv)
             L, applied, peak = run_handshake_case(base.scn, "server", idx, d, base.ctxm)
             if L is None or applied.get("inapplicable"):
                 ctx.count("sh-inapplicable:" + name)
@@ -2223,7 +2261,8 @@ def sh_correspondence(ctx, J, bases):
             judge(J, L, "client", "server_hello " + name, replay)
             parts = mo.split(":", 2)
             if parts[0] == "alert":
-                ok = impl[0] == "alert" and impl[1] == int(parts[1]) and (impl[2].startswith(norm_msg(parts[2])) or parts[2] == "parse")
+                ok = impl[0] == "alert" and impl[1] == int(parts[1]) and (impl[2].startswith(norm_msg(parts[2])) or
+                                                                           parts[2].startswith("parse"))
             elif parts[0] == "pass":
                 ok = not (impl[0] == "alert" and impl[2] and any(impl[2].startswith(x) for x in msgs)) and impl[0] != "escape" \
                     and not (impl[0] == "tlserror" and impl[1] in ("TLSInternalError",))
